@@ -60,7 +60,7 @@ func raceCfg(dir string, port uint16) torrent.Config {
 	cfg.TrackerStopTimeout = 200 * time.Millisecond
 	cfg.MaxOpenFiles = 0
 	cfg.DNSResolveTimeout = time.Second
-	cfg.TrackerMinAnnounceInterval = 200 * time.Millisecond
+	cfg.TrackerMinAnnounceInterval = 20 * time.Millisecond
 	cfg.BlocklistEnabledForTrackers = false
 	return cfg
 }
@@ -157,7 +157,7 @@ func raceOne(m map[string]string) string {
 	var trk [][]string
 	if tln, err := net.Listen("tcp4", "127.0.0.1:0"); err == nil {
 		tsrv := &http.Server{Handler: http.HandlerFunc(func(rw http.ResponseWriter, req *http.Request) {
-			rw.Write([]byte("d8:intervali1e12:min intervali1e5:peers12:\x7f\x00\x00\x01\x00\x09\x7f\x00\x00\x02\x00\x09e")) // nolint
+			rw.Write([]byte("d8:intervali0e5:peers12:\x7f\x00\x00\x01\x00\x09\x7f\x00\x00\x02\x00\x09e")) // nolint
 		})}
 		go tsrv.Serve(tln) // nolint
 		defer tsrv.Close()
